@@ -4,6 +4,7 @@
 
 pub mod log;
 pub mod sqlite;
+pub mod sql;
 pub mod rangemap;
 pub mod collections;
 
